@@ -72,6 +72,13 @@ public:
    void checkArgMix( const std::string& ownName, const std::string& otherName,
                      const ArgumentContainer& otherAH) const;
 
+   /// Checks that the given key does not collide with the key of an argument
+   /// stored in this container: neither the same short or long key, nor a
+   /// short/long pair that contradicts a stored pair.
+   /// @param[in]  key  The key to check.
+   /// @throw  std::invalid_argument if the key is used already.
+   void checkKeyFree( const ArgumentKey& key) const noexcept( false);
+
    /// Searches if this short or long argument is defined.
    /// If a long argument name was used, also search for partial matches if it
    /// is allowed.
